@@ -7,6 +7,9 @@
             constructors load from the directory as it is when the process is killed at the entry of this call
             (crash), and - for a write - when it is killed after k bytes of it (cuts: k in {0, 1, half, len-1})
      end    the store's method returned (ok = no error = the change is acknowledged) + the recovery after it
+     probes (on every crash point) crash HISTORIES through the real request handlers: the server was restarted on the
+            crashed directory (real constructors), ONE further change was requested through its real handler (acked =
+            the handler's reply acknowledges it), the server was restarted again: what the constructors hold then
      hist   (on sys / end lines) continuation after an EARLIER crash: the process was killed at a crash point of the
             previous update of this store (origin j, ci, cut; rec = what the constructors recovered there), the
             recorded calls that follow were re-executed on that crashed directory, and this is what the real
@@ -16,6 +19,8 @@
      VIOL C20   a store fails to load, the in-flight store holds neither the complete old nor the complete new value,
                 another store changed, or an acknowledged change is not there after the acknowledgement
                 - also for the continued histories (crash, restart, next update of the store, second crash or completion)
+                - a change acknowledged by the real handler after a restart on a crashed directory is not there (or a
+                  store no longer loads / holds neither value / another store changed) after the next restart
      DRIFT      an update the model does not enable or a call the model's directory cannot execute
      SHAPE      (informational) an update that survived every crash point and continuation here although its call sequence
                 is not the protocol shape proven in MC_Persist
@@ -83,6 +88,41 @@ Squash(sq) == IF Len(sq) <= 1 THEN sq
               ELSE <<sq[1]>> \o Squash(Tail(sq))
 Shape(sq) == LET q == Squash(SelectSeq(sq, Keep)) IN [i \in DOMAIN q |-> NormStep(q[i])]
 
+(* ---- crash histories through the real handlers ------------------------------------------------------------------ *)
+(* r = what was recovered at the crash point (judged safe); q = one probe: an ordinary update from the recovered
+   state - whatever the dead process left behind is part of that state. *)
+ProbeVerdict(q, r) ==
+  LET st == StoreOf(q.upd)
+      rv == r[st].val
+      a == ObsRes(q.crash)
+  IN IF ~Pre(q.upd, rv) THEN "skip"
+     ELSE IF Fails(a) # {} THEN "store-fails-to-load"
+     ELSE IF \E o \in Stores \ {st} : a[o].val # r[o].val THEN "other-store-changed"
+     ELSE IF a[st].val = Effect(q.upd, rv) THEN "ok"
+     ELSE IF a[st].val = rv THEN (IF q.acked THEN "acknowledged-change-not-durable" ELSE "ok")
+     ELSE "neither-old-nor-new"
+ProbeClass(q, r) == "restart-then-" \o q.upd.kind \o "/" \o ProbeVerdict(q, r)
+(* the violating (point, probe) pairs of a set of crash points *)
+BadProbes(pts) ==
+  {<<p, i>> \in UNION {{<<p, i>> : i \in DOMAIN p.probes} : p \in {x \in pts : SafeRecovery(ObsRes(x.o))}} :
+     ProbeVerdict(p.probes[i], ObsRes(p.o)) \notin {"ok", "skip"}}
+ProbeDetail(p, i) ==
+  LET q == p.probes[i]
+      r == ObsRes(p.o)
+      a == ObsRes(q.crash)
+      st == StoreOf(q.upd)
+  IN [class |-> ProbeClass(q, r), store |-> inflight.st, kind |-> inflight.u.kind, upd |-> inflight.u, cut |-> p.k,
+      first_crash |-> p.class, then_requested |-> q.upd, acknowledged_by_handler |-> q.acked, handler_note |-> q.note,
+      fails |-> Fails(a), errs |-> [x \in Fails(a) |-> q.crash[x].err],
+      recovered_after_first_crash |-> ToJson(p.o[st].val),
+      recovered_after_second_restart |-> IF st \in Fails(a) THEN "load error" ELSE ToJson(q.crash[st].val),
+      expected |-> ToJson(Effect(q.upd, r[st].val))]
+ProbeClasses(B) == {ProbeClass(x[1].probes[x[2]], ObsRes(x[1].o)) : x \in B}
+ReportProbes(e, B) ==
+  \A c \in ProbeClasses(B) :
+     (<<e.run, e.u, c>> \notin seen) =>
+        LET x == CHOOSE y \in B : ProbeClass(y[1].probes[y[2]], ObsRes(y[1].o)) = c IN Report("VIOL", e, ProbeDetail(x[1], x[2]))
+
 (* ---- continuation after an earlier crash ------------------------------------------------------------------------ *)
 (* History: killed at an earlier crash point where the constructors recovered h.rec for this store; then this update.
    Single-file stores are rewritten as a whole, so the complete new value is this update's recorded new value;
@@ -149,19 +189,21 @@ Begin ==
 SysEv ==
   LET e == Log[l]
       s == StepOf(e)
-      pts == {[class |-> BoundaryClass(s), k |-> -1, o |-> e.crash]}
-             \cup {[class |-> IF e.cuts[i].k = 0 THEN BoundaryClass(s) ELSE CutClass(s), k |-> e.cuts[i].k, o |-> e.cuts[i].crash]
-                   : i \in DOMAIN e.cuts}
+      pts == {[class |-> BoundaryClass(s), k |-> -1, o |-> e.crash, probes |-> e.probes]}
+             \cup {[class |-> IF e.cuts[i].k = 0 THEN BoundaryClass(s) ELSE CutClass(s), k |-> e.cuts[i].k, o |-> e.cuts[i].crash,
+                     probes |-> e.cuts[i].probes] : i \in DOMAIN e.cuts}
       badPts == {p \in pts : ~SafeRecovery(ObsRes(p.o))}
   IN
   /\ e.op = "sys"
   /\ IF inflight.kind # "upd"
        THEN /\ UNCHANGED <<dir, ino, fds, phase, bad, steps, seen>>      \* its begin was already reported as drift
        ELSE /\ ReportPoints(e, badPts)
+            /\ ReportProbes(e, BadProbes(pts))
             /\ ReportHists(e, "continued-after-crash/" \o BoundaryClass(s), BadHists(e, FALSE))
             /\ seen' = seen \cup {<<e.run, e.u, p.class>> : p \in badPts}
+                            \cup {<<e.run, e.u, c>> : c \in ProbeClasses(BadProbes(pts))}
                             \cup (IF BadHists(e, FALSE) # {} THEN {<<e.run, e.u, "continued-after-crash/" \o BoundaryClass(s)>>} ELSE {})
-            /\ bad' = (bad \/ badPts # {} \/ BadHists(e, FALSE) # {})
+            /\ bad' = (bad \/ badPts # {} \/ BadHists(e, FALSE) # {} \/ BadProbes(pts) # {})
             /\ steps' = Append(steps, s)
             /\ IF SysGuard(s)
                  THEN SysApply(s)
@@ -175,7 +217,7 @@ EndEv ==
       o == e.crash
       cls == "after-" \o PrevTag \o "-before-end"
       hcls == "continued-after-crash/completed"
-      pt == [class |-> cls, k |-> -1, o |-> o]
+      pt == [class |-> cls, k |-> -1, o |-> o, probes |-> e.probes]
       unsafe == ~SafeRecovery(ObsRes(o))
       newThere == o[st].ok /\ ValIn(st, o[st].val) = inflight.new
       lost == e.ok /\ ~unsafe /\ ~newThere
@@ -187,12 +229,14 @@ EndEv ==
        THEN UNCHANGED <<val, acked, seen>>
        ELSE /\ (unsafe => ReportPoints(e, {pt}))
             /\ ReportHists(e, hcls, BadHists(e, e.ok))
+            /\ ReportProbes(e, BadProbes({pt}))
             /\ (lost /\ <<e.run, e.u, "acknowledged-change-not-durable">> \notin seen =>
                   Report("VIOL", e, PointDetail([class |-> "acknowledged-change-not-durable", k |-> -1, o |-> o])))
             /\ seen' = seen \cup (IF unsafe THEN {<<e.run, e.u, cls>>} ELSE {})
                             \cup (IF lost THEN {<<e.run, e.u, "acknowledged-change-not-durable">>} ELSE {})
                             \cup (IF BadHists(e, e.ok) # {} THEN {<<e.run, e.u, hcls>>} ELSE {})
-            /\ ((e.ok /\ ~bad /\ ~unsafe /\ ~lost /\ BadHists(e, e.ok) = {} /\ got # want) =>
+                            \cup {<<e.run, e.u, c>> : c \in ProbeClasses(BadProbes({pt}))}
+            /\ ((e.ok /\ ~bad /\ ~unsafe /\ ~lost /\ BadHists(e, e.ok) = {} /\ BadProbes({pt}) = {} /\ got # want) =>
                   Report("SHAPE", e, [what |-> "survives every crash point and continuation here, but is not the protocol shape proven in MC_Persist",
                                       kind |-> inflight.u.kind, got |-> got, want |-> want]))
             /\ val' = [val EXCEPT ![st] = IF o[st].ok THEN ValIn(st, o[st].val) ELSE inflight.old]
